@@ -15,7 +15,7 @@ from pathlib import Path
 import core
 import pkg
 
-C04_OPS = ["body", "meta", "styles", "add_file_path", "add_file_io", "add_same", "del_part", "del_picture", "read_part", "frame", "merge", "parts", "read_xml", "del_rdf"]
+C04_OPS = ["body", "meta", "styles", "add_file_path", "add_file_io", "add_same", "add_same_path", "del_part", "del_picture", "read_part", "frame", "merge", "parts", "read_xml", "del_rdf"]
 
 
 def run(chk: core.Check) -> None:
@@ -100,7 +100,7 @@ def one_history(chk, rng, s, tmp):
         if op[0] not in C04_OPS and op[0] != "del_part":
             continue
         chk.count("operation", op[0])
-        if op[0] in ("add_file_path", "add_file_io", "add_same", "del_part", "frame", "merge"):
+        if op[0] in ("add_file_path", "add_file_io", "add_same", "add_same_path", "del_part", "frame", "merge"):
             nontriv = True
         try:
             res = pkg.apply_op(s, op, tmp)
